@@ -420,7 +420,17 @@ class C02(Prop):
         ("F", "equal diagrams denote equal tensors over any commutative semiring; s_tensordot/s_transpose denote np.tensordot/np.transpose on entries (Wire/SemProofs.v, SemEntryProofs.v)"),
         ("F", "network VALUE preserved: over any commutative semiring and any atom table, access/rename/replace/contract leave net_value unchanged at every wire "
               "assignment; split under the kernel contract def_holds (Q.R = A over the new bond), insert_identity under eye_atom; lifted to every add_child-free "
-              "sequence (C02_run_net_value); a contracted node's tensor is the sum over the bond of the product of the two old tensors (C02_contract_node_value)"),
+              "sequence (C02_run_net_value); a contracted node's tensor is the sum over the bond of the product of the two old tensors (C02_contract_node_value). "
+              "Coverage of C02_run_net_value: its two contracts are stated at ALL indices (eye_atom: identity beyond the wire dimensions too; def_holds: every "
+              "assignment), which no table satisfies when an inserted identity node is split later (C02_eye_atom_split_unsatisfiable, over Z): the theorem is "
+              "sound but vacuous for such sequences; it covers sequences whose inserted identities are not split afterwards"),
+        ("O", "network VALUE preserved, contracts on the INDEX RANGES only (TTN/InvSemEyeRange.v, InvSemRunRange.v): eye_atom_in_range (the fresh atom is the identity "
+              "below the dimensions of its two wires) and def_holds_in_range (Q.R = A at every assignment in range on the axes of the split tensor); insert_identity "
+              "preserves net_value at every assignment, split and every add_child-free sequence at every assignment in range on the open wires = every entry of the "
+              "denoted tensor (C02_insert_identity_net_value_in_range, C02_split_net_value_in_range, C02_run_net_value_in_range, C02_run_net_entry_in_range); recorded "
+              "dimensions of existing wires never change (C02_step_wdim_old); implied by the unrestricted premises (C02_contracts_hold_weaken), so this theorem covers "
+              "ALL sequences incl. [insert_identity; split of that node], where every premise is satisfiable (C02_example_contracts_in_range, Q.R = I over Z); the "
+              "in-range restriction of the conclusion is necessary (C02_example_in_range_needed)"),
         ("I", "per explored sequence: ops_okb (the theorems' preconditions), wfb and the extended invariant wfsb (atom tables closed, bound wires private) "
               "on every reachable state, by vm_compute"),
         ("O", "kernel factors (QR/SVD/explicit) are fresh atoms whose product over the new bond equals the input; validated numerically through the dense oracle"),
@@ -429,7 +439,10 @@ class C02(Prop):
               "nodes, complex-gauged replacement factors) keep the contraction: judged by the oracle only (the model is data-type agnostic)"),
     ]
     trusted_base = ["NumPy transpose/tensordot/reshape implement the diagram operations (exercised exactly with integer-valued tensors)",
-                    "LAPACK QR/SVD: factors contract back to the input (validated numerically at every split)"]
+                    "LAPACK QR/SVD: factors contract back to the input (validated numerically at every split); as a theorem premise this is def_holds_in_range "
+                    "(Q.R = A at the entries of the split tensor) in C02_run_net_value_in_range, def_holds (at all indices, also out of range) in the older C02_run_net_value",
+                    "np.eye in insert_identity is the identity matrix on its index range (eye_atom_in_range; the older eye_atom asks it at all indices and is jointly "
+                    "unsatisfiable with def_holds once the inserted node is split)"]
 
     def generate(self, ctx, stream, budget_scale=1):
         rng = ctx.rng(stream)
